@@ -165,6 +165,11 @@ class Tr:
                 return lit_int(self.spec["class_tags"][e.id])        # a class used as a value: its tag
             raise Unsupported(f"name {e.id}")
         if isinstance(e, ast.Attribute):
+            if isinstance(e.value, ast.Name) and e.value.id in self.spec.get("param_objects", ()):
+                key = e.value.id + "." + e.attr
+                if key in st:
+                    return st[key]
+                raise Unsupported(f"attribute {key} of the parameter object is not an input")
             if isinstance(e.value, ast.Name) and (e.value.id + "." + e.attr) in self.spec.get("bytes_consts", {}) and self.native:
                 # a class-level bytes constant that harness/extract.py regenerates from the module (Generated/Consts.lean)
                 return V("bytes", self.spec["bytes_consts"][e.value.id + "." + e.attr])
@@ -598,9 +603,54 @@ class Tr:
             return f"(!{paren(self.cond(e.operand, st, sc))})"
         return truthy(self.expr(e, st, sc))
 
+    @staticmethod
+    def dotted(n):
+        parts = []
+        while isinstance(n, ast.Attribute):
+            parts.append(n.attr)
+            n = n.value
+        if isinstance(n, ast.Name):
+            parts.append(n.id)
+            return ".".join(reversed(parts))
+        return None
+
+    @staticmethod
+    def strip_cast(n):
+        """`cast(T, x)` is x"""
+        while isinstance(n, ast.Call) and isinstance(n.func, ast.Name) and n.func.id == "cast" and len(n.args) == 2 and not n.keywords:
+            n = n.args[1]
+        return n
+
+    def enum_ctor_try(self, s):
+        """`try: T = SomeEnum(v)  except ValueError: T = v` (an enum member compares and encodes as its int value, and the
+        constructor raises ValueError for a value that is no member): T = v.  Returns (target, value node) or None."""
+        if not (isinstance(s, ast.Try) and len(s.handlers) == 1 and not s.orelse and not s.finalbody and len(s.body) == 1
+                and len(s.handlers[0].body) == 1 and isinstance(s.body[0], ast.Assign) and isinstance(s.handlers[0].body[0], ast.Assign)
+                and isinstance(s.handlers[0].type, ast.Name) and s.handlers[0].type.id == "ValueError"):
+            return None
+        a, b = s.body[0], s.handlers[0].body[0]
+        if len(a.targets) != 1 or len(b.targets) != 1 or ast.dump(a.targets[0]) != ast.dump(b.targets[0]):
+            return None
+        ctor = self.strip_cast(a.value)
+        if not (isinstance(ctor, ast.Call) and self.dotted(ctor.func) in self.spec.get("enum_classes", ()) and len(ctor.args) == 1
+                and not ctor.keywords):
+            return None
+        if ast.dump(self.strip_cast(ctor.args[0])) != ast.dump(self.strip_cast(b.value)):
+            return None
+        return a.targets[0], self.strip_cast(b.value)
+
     def call(self, e, st, sc):
         f = e.func
         args = e.args
+        if isinstance(f, ast.Name) and f.id == "cast" and len(args) == 2 and not e.keywords:
+            return self.expr(args[1], st, sc)
+        dn = self.dotted(f)
+        if dn in self.spec.get("enum_getters", {}) and len(args) == 1 and not e.keywords:
+            vals, dflt = self.spec["enum_getters"][dn]
+            v = self.expr(args[0], st, sc)
+            if v.kind != "int":
+                raise Unsupported("get_from_value of a non-int")
+            return V("int", f"Py.enumGetI {vals} {dflt} {paren(v.lean)}")
         if self.native:
             r = self.call_native(e, st, sc)
             if r is not None:
@@ -891,6 +941,10 @@ class Tr:
                 v = self.expr(s.items[0].context_expr, st, sc)
                 st[s.items[0].optional_vars.id] = v
                 return self.block(list(s.body) + rest, st, sc)
+            if self.enum_ctor_try(s) is not None:
+                tgt, val = self.enum_ctor_try(s)
+                self.assign_target(tgt, self.expr(val, st, sc), st)
+                continue
             if isinstance(s, ast.Try) and len(s.handlers) == 1 and not s.orelse and not s.finalbody \
                     and len(s.handlers[0].body) == 1 and isinstance(s.handlers[0].body[0], ast.Pass) \
                     and len(s.body) == 2 and isinstance(s.body[0], ast.Expr) and isinstance(s.body[0].value, ast.Call) \
@@ -1052,6 +1106,9 @@ class Tr:
                 for k in set(sta) & set(stb):
                     a, b = sta[k], stb[k]
                     st[k] = a if a is b else self.ite(c, a, b)
+            elif self.enum_ctor_try(s) is not None:
+                tgt, val = self.enum_ctor_try(s)
+                self.assign_target(tgt, self.expr(val, st, sc), st)
             elif isinstance(s, (ast.Pass,)) or (isinstance(s, ast.Expr) and isinstance(s.value, ast.Constant)) or is_log_call(s):
                 pass
             elif isinstance(s, ast.Expr) and isinstance(s.value, ast.Call) and self.native and self.external_name(s.value) is not None:
@@ -1181,7 +1238,7 @@ class Tr:
         st = {}
         params = []
         for name, k in self.spec["inputs"]:
-            lean_name = name.replace("self.", "").replace("call:", "").replace("cls.", "")
+            lean_name = name.replace("self.", "").replace("call:", "").replace("cls.", "").replace("res.", "")
             if k == "bytes" and self.native:
                 st[name] = V("bytes", lean_name)
             elif k == "optbytes":
@@ -1316,6 +1373,12 @@ SETSTATE_INPUTS = [("self.beep_on", "bool"), ("self.power_on", "bool"), ("self.t
                    ("self.sleep", "bool"), ("self.freeze_protection", "bool"), ("self.follow_me", "bool"),
                    ("self.purifier", "bool"), ("self.target_humidity", "int"), ("self.aux_heat", "bool"),
                    ("self.force_aux_heat", "bool"), ("self.independent_aux_heat", "bool")]
+
+UPD_ATTRS = [("_power_state", "bool"), ("_target_temperature", "fix"), ("_operational_mode", "int"), ("_fan_speed", "int"),
+             ("_swing_mode", "int"), ("_eco", "bool"), ("_turbo", "bool"), ("_freeze_protection", "opt:bool"), ("_sleep", "bool"),
+             ("_indoor_temperature", "opt:fix"), ("_outdoor_temperature", "opt:fix"), ("_display_on", "bool"),
+             ("_fahrenheit_unit", "bool"), ("_filter_alert", "bool"), ("_follow_me", "bool"), ("_purifier", "bool"),
+             ("_target_humidity", "opt:int"), ("_aux_mode", "int")]
 
 CMD = "msmart/device/AC/command.py"
 
@@ -1487,6 +1550,19 @@ SPECS = [
                "mode := _operational_mode.toNat, fan := _fan_speed, swing := _swing_mode.toNat, eco := _eco, turbo := _turbo, "
                "freeze := _freeze_protection, sleep := _sleep, fahrenheit := _fahrenheit_unit, followMe := _follow_me, "
                "purifier := _purifier, humidity := _target_humidity.map Int.toNat, auxMode := _aux_mode.toNat })"),
+    dict(name="updateState", file="msmart/device/AC/device.py", func="AirConditioner._update_state",
+         isinstance_branch=("res", "StateResponse"), param_objects=("res",),
+         inputs=[("self._supports_custom_fan_speed", "bool")] + [("res." + n, k) for n, k in STATE_ATTRS],
+         enum_getters={"AirConditioner.OperationalMode.get_from_value": ("Generated.operationalMode", "Generated.operationalModeDefault"),
+                       "AirConditioner.FanSpeed.get_from_value": ("Generated.fanSpeed", "Generated.fanSpeedDefault"),
+                       "AirConditioner.SwingMode.get_from_value": ("Generated.swingMode", "Generated.swingModeDefault")},
+         enum_classes=("AirConditioner.FanSpeed",),
+         out=("attrs", UPD_ATTRS), rtype="UpdAttrs",
+         model="UpdAttrs.ofModel _supports_custom_fan_speed (StateAttrs.toModel { power_on := power_on, target_temperature := target_temperature, "
+               "operational_mode := operational_mode, fan_speed := fan_speed, swing_mode := swing_mode, turbo := turbo, eco := eco, sleep := sleep, "
+               "fahrenheit := fahrenheit, indoor_temperature := indoor_temperature, outdoor_temperature := outdoor_temperature, "
+               "filter_alert := filter_alert, display_on := display_on, freeze_protection := freeze_protection, follow_me := follow_me, "
+               "purifier := purifier, target_humidity := target_humidity, aux_heat := aux_heat, independent_aux_heat := independent_aux_heat })"),
 ] + LAN_SPECS
 
 
@@ -1556,6 +1632,23 @@ def loop_body_function(fn, cfg):
     return f2
 
 
+def isinstance_branch_function(fn, var, cls_name):
+    """the body of the `if isinstance(<var>, <cls_name>):` arm of an if / elif chain at the top of a function, as a function"""
+    import copy
+    for st_ in fn.body:
+        node = st_
+        while isinstance(node, ast.If):
+            t = node.test
+            if isinstance(t, ast.Call) and isinstance(t.func, ast.Name) and t.func.id == "isinstance" and len(t.args) == 2 \
+                    and isinstance(t.args[0], ast.Name) and t.args[0].id == var and isinstance(t.args[1], ast.Name) \
+                    and t.args[1].id == cls_name:
+                f2 = copy.copy(fn)
+                f2.body = copy.deepcopy(node.body)
+                return f2
+            node = node.orelse[0] if len(node.orelse) == 1 else None
+    raise Unsupported(f"no `if isinstance({var}, {cls_name})` arm")
+
+
 def translate_all(repo=None):
     """returns (lean_text, report) ; report: name -> 'ok' | 'unsupported: reason'"""
     repo = repo or REPO
@@ -1577,6 +1670,8 @@ def translate_all(repo=None):
                 raise Unsupported("function not found: " + spec["func"])
             if spec.get("loop_body"):
                 fn = loop_body_function(fn, spec["loop_body"])
+            if spec.get("isinstance_branch"):
+                fn = isinstance_branch_function(fn, *spec["isinstance_branch"])
             sp = dict(spec)
             cc = {}
             if spec.get("consts_from"):
@@ -1599,7 +1694,9 @@ def translate_all(repo=None):
             argnames = [a.arg for a in fn.args.args]
             if argnames and argnames[0] in ("self", "cls"):
                 argnames = argnames[1:]
-            want = [n for n, _k in spec["inputs"] if not n.startswith("self.") and not n.startswith("call:") and not n.startswith("cls.")]
+            want = [n for n, _k in spec["inputs"] if not n.startswith("self.") and not n.startswith("call:") and not n.startswith("cls.")
+                    and "." not in n]
+            argnames = [a for a in argnames if a not in spec.get("param_objects", ())]
             kwonly = [a.arg for a in fn.args.kwonlyargs]
             if kwonly and kwonly == spec.get("kwonly"):
                 argnames = argnames + kwonly            # keyword-only parameters the spec names (their defaults are the callers' business)
@@ -1653,7 +1750,7 @@ def translate_all(repo=None):
             out.append(f"def {spec['name']}_translated : Bool := true\n\n")
         else:
             # alias of the model: the tie for this function is the correspondence check only
-            params = [f"({n.replace('self.', '').replace('call:', '').replace('cls.', '')} : {LEAN_TYPES[k]})" for n, k in spec["inputs"]]
+            params = [f"({n.replace('self.', '').replace('call:', '').replace('cls.', '').replace('res.', '')} : {LEAN_TYPES[k]})" for n, k in spec["inputs"]]
             out.append(f"def {spec['name']} {' '.join(params)} : {spec['rtype']} :=\n  {spec['model']}\n")
             out.append(f"def {spec['name']}_translated : Bool := false\n\n")
     out.append("end Msmart.Generated.Codec\n")
@@ -1700,6 +1797,30 @@ def StateAttrs.ofModel (m : Model.StateResp) : StateAttrs :=
     filter_alert := m.filterAlert, display_on := m.displayOn, freeze_protection := m.freeze,
     follow_me := m.followMe, purifier := m.purifier, target_humidity := m.humidity.map (fun (n : Nat) => (n : Int)),
     aux_heat := m.auxHeat, independent_aux_heat := m.indepAuxHeat }
+
+/-- the inverse direction (what the attribute values mean to the model) -/
+def StateAttrs.toModel (a : StateAttrs) : Model.StateResp :=
+  { power := a.power_on, tempCenti := a.target_temperature, mode := a.operational_mode.toNat, fan := a.fan_speed.toNat,
+    swing := a.swing_mode.toNat, turbo := a.turbo, eco := a.eco, sleep := a.sleep, fahrenheit := a.fahrenheit,
+    indoor := a.indoor_temperature.map (· / 10), outdoor := a.outdoor_temperature.map (· / 10),
+    filterAlert := a.filter_alert, displayOn := a.display_on, freeze := a.freeze_protection,
+    followMe := a.follow_me, purifier := a.purifier, humidity := a.target_humidity.map Int.toNat,
+    auxHeat := a.aux_heat, indepAuxHeat := a.independent_aux_heat }
+
+/-- the attributes the `StateResponse` arm of `AirConditioner._update_state` assigns (floats in hundredths, enum members as ints) -/
+structure UpdAttrs where
+""" + "".join(f"  {n} : {LEAN_TYPES[k]}\n" for n, k in UPD_ATTRS) + """  deriving DecidableEq, Repr
+
+def UpdAttrs.ofDev (d : Model.Dev) : UpdAttrs :=
+  { _power_state := d.power, _target_temperature := d.tempCenti, _operational_mode := (d.mode : Int), _fan_speed := d.fan,
+    _swing_mode := (d.swing : Int), _eco := d.eco, _turbo := d.turbo, _freeze_protection := d.freeze, _sleep := d.sleep,
+    _indoor_temperature := d.indoor.map (· * 10), _outdoor_temperature := d.outdoor.map (· * 10), _display_on := d.displayOn,
+    _fahrenheit_unit := d.fahrenheit, _filter_alert := d.filterAlert, _follow_me := d.followMe, _purifier := d.purifier,
+    _target_humidity := d.humidity.map (fun (n : Nat) => (n : Int)), _aux_mode := (d.auxMode : Int) }
+
+/-- the model's `_update_state` on a fresh object whose only relevant capability is `supports_custom_fan_speed` -/
+def UpdAttrs.ofModel (sup : Bool) (st : Model.StateResp) : UpdAttrs :=
+  UpdAttrs.ofDev (({ supCustomFan := sup } : Model.Dev).updateFromState st)
 
 """
 
